@@ -470,6 +470,53 @@ func RunSession(s Session) mon.Result {
 				}
 			}
 		}
+		for i := 0; i < sent; i++ {
+			L := len(refs[i])
+			if L <= 32768 {
+				if strings.HasPrefix(o.Cmds[i].Mark, "h:big/small-middle") {
+					obs["big_output_control_below_32KiB_hit"]++
+				}
+				continue
+			}
+			obs["outputs_over_32KiB"]++
+			obs["outputs_over_32KiB:api_"+o.API]++
+			if L >= 1<<20 {
+				obs["outputs_of_1MiB"]++
+			}
+			if !fails[i] {
+				obs["outputs_over_32KiB_without_failure_string"]++
+				continue
+			}
+			inWindow := false
+			for _, f := range inForce {
+				if f == "" {
+					continue
+				}
+				for st := 0; ; {
+					k := strings.Index(refs[i][st:], f)
+					if k < 0 {
+						break
+					}
+					a, b := st+k, st+k+len(f)
+					if b <= 16384 || a >= L-16384 {
+						inWindow = true
+					}
+					st = a + 1
+				}
+			}
+			if inWindow {
+				obs["outputs_over_32KiB_hit_within_first_or_last_16KiB"]++
+			} else {
+				obs["outputs_over_32KiB_hit_only_outside_or_straddling_the_16KiB_ends"]++
+				if o.Stop && isMulti(o.API) {
+					obs["outputs_over_32KiB_hit_outside_ends_and_stop_truncated"]++
+				}
+			}
+			if parts := strings.Split(o.Cmds[i].Mark, "/"); len(parts) >= 2 && parts[0] == "h:big" {
+				obs["big_output_hit:"+parts[1]]++
+				tag("big_output_hit=%s", parts[1])
+			}
+		}
 		if o.FileOf > 0 {
 			if o.FileSameStat {
 				obs["fromfile_path_reused_same_length_same_mtime"]++
@@ -964,6 +1011,9 @@ func init() {
 			"in three groups of four with content of the same byte length and the old modification time restored (os.Chtimes), else as an ordinary rewrite. " +
 			"Network sessions with pushes of 101-350 lines (SendConfigs, SendConfig, SendConfigsFromFile; SendCommands(FromFile) as control) with stop-on-failed and the first rejected line at " +
 			"1-based positions 99, 100, 101, 199, 200, 201, 300 and random ones (quick 11 sessions, thorough 44). " +
+			"A fixed share of sessions (quick 12, thorough 48; whole / 4096-byte reads) has a command whose output is 33 KiB-1 MiB (plus a control below 32 KiB) with exactly one failure string in force placed at " +
+			"a chosen offset of the result: middle, straddling byte 16384 from the start / from the end, adjacent to those bytes, anywhere between, controls inside the first/last 16 KiB or none; " +
+			"through SendCommand and the multi doors, with and without stop-on-failed (the big command is never the last). " +
 			"Decoys: unlisted string, driver-level string while an operation-level list overrides it, string of another operation's list, string only in the echoed command, " +
 			"case variant, string broken by a newline, proper prefix. Placement first/middle/last line x start/mid/end/whole line, optionally broken by an escape sequence or CR, several per output. " +
 			"Non-trivial = a session in which at least one returned member failed per the reference (a failure string in force is present in some output). Distinct = distinct descriptor hash.",
@@ -982,7 +1032,7 @@ func init() {
 		Gen:         Gen,
 		Run:         func(c mon.Case) mon.Result { var s Session; c.Decode(&s); return RunSession(s) },
 		Workers:     func(string) int { return 8 },
-		Parallel:    func(string) int { return 16 },
+		Parallel:    func(string) int { return 32 },
 		CaseTimeout: 600 * time.Second,
 		Procs:       func(tier string, shard int) int { return []int{2, 4}[shard%2] },
 	})
